@@ -70,19 +70,28 @@ def r07_1(run, model):
     run.ob("R07.1", "mono::unify|template parameter binds first", "TParam" in ptxt, site(t.fn.file, t.match["arms"][0]["sp"]), f"first arm: {ptxt[:60]}")
 
 
-def r07_2(run, model):
+def r07_2(run, model, only_file=None):
+    """only_file: evaluate the audit for the traversals of one file only (clause shared into another property)"""
     run.rule("R07.2", "every structural traversal of Ty handles every child-carrying type former (TTuple, TApp, TArray, TVec, TRef, TFunc - "
                       "computed from the enum) in an explicit arm that uses every child; none is swallowed by a catch-all arm")
     cv, trs = structural(model)
     run.anchor("child-carrying Ty formers (computed)", sorted(cv))
     n = 0
     names = set()
+    trav_names = {t.fn.name for t, rv in trs if len([v for v in rv if v != "TApp"]) >= 2}
+    # helpers that hand their argument on to a structural traversal (one level, e.g. ref_struct_name -> encode_ty)
+    for g in model.fns():
+        if g.body is not None and g.file.startswith("crates/compiler/src") and g.name not in trav_names and ((S.idents(g.body) | {S.callee_name(c) for c in S.calls(g.body)}) & trav_names) and \
+                any((not p_["self"]) and "Ty" in (p_["ty"] or "") for p_ in g.params()):
+            trav_names = trav_names | {g.name}
     for t, rec_vars in trs:
         non_app = [v for v in rec_vars if v != "TApp"]
         if len(non_app) < 2:
             continue  # head inspector (peels TApp/looks at the head constructor), not a structural traversal
         if t.fn.name == "unify" and t.kind == "pair":
             continue  # R07.1 / C03
+        if only_file is not None and t.fn.file != only_file:
+            continue
         # dead code (no caller other than itself) decides nothing
         callers = 0
         for g in model.fns():
@@ -108,6 +117,13 @@ def r07_2(run, model):
             for arm, alt in t.covered[v]:
                 b, rest = _bind(alt)
                 body_ids = S.idents(arm["body"])
+                # the children are handed to this traversal again (or to another structural traversal), not to a shallow test
+                const_arm = arm["body"]["k"] in ("Lit",) or (arm["body"]["k"] == "Path" and len(arm["body"]["segs"]) == 1 and arm["body"]["segs"][0] in ("true", "false"))
+                deep = sorted((S.idents(arm["body"]) | {S.callee_name(c) for c in S.calls(arm["body"])}) & trav_names)
+                led = LEDGER.get((t.fn.name, v, "shallow"))
+                run.ob("R07.2", f"{fq}|{v} descends", bool(deep) or const_arm or led is not None, site(t.fn.file, arm["sp"]),
+                       f"the {v} arm {'recurses through ' + ', '.join(sorted(set(deep))) if deep else ('is decided by a constant' if const_arm else 'inspects its children without recursing')}" + (f"; ledger: {led}" if led and not deep else ""),
+                       witness=f"a {v} nested inside a {v} (or another former) is not inspected below the first level: e.g. a closure inside ((f, g), n)")
                 for k in kids:
                     used = isinstance(b.get(k), str) and b[k] in body_ids
                     if not used and isinstance(b.get(k), tuple):
@@ -118,6 +134,9 @@ def r07_2(run, model):
                     run.ob("R07.2", f"{fq}|{v}.{k}", used or const or led is not None, site(t.fn.file, arm["sp"]),
                            f"{v}.{k} {'used' if used else ('decided by a constant' if const else 'NOT used')} in the arm" + (f"; ledger: {led}" if led and not used else ""),
                            witness=f"the `{k}` component of a {v} type is skipped by {t.fn.name}")
+    if only_file is not None:
+        run.floor(f"structural Ty traversals in {only_file}", n, 1)
+        return
     run.floor("structural Ty traversals", n, 20)
     for rel, name in ANCHOR_TRAVERSALS:
         ok = (rel, name) in names
